@@ -387,3 +387,15 @@ fn c12_local_history_clear_clone() {
     assert!(h.get_sample_count() == 0 && s.count.get() == 0 && s.buckets[0].get() == 0 && s.buckets[1].get() == 0 && s.sum.get().to_bits() == 0,
         "C12: cleared data or an empty clone reached the shared histogram");
 }
+
+//@ id: c03_proto_step_b2
+//@ prop: C03, C08
+//@ tier: quick
+//@ strength: bounded(B=2 buckets), complete in values (arbitrary invariant state, either shard hot)
+//@ fn: histogram::HistogramCore::proto
+//@ obligation: inductive step for proto with two buckets (cheapest instance; stays within the time limit for heavier reformulations of proto)
+#[kani::proof]
+#[kani::unwind(4)]
+fn c03_proto_step_b2() {
+    proto_step::<2>();
+}
